@@ -961,6 +961,10 @@ impl Check for C08 {
                 if let SPacket::ConnAck { .. } = p {
                     if rng.chance(1, 6) {
                         bytes[2] = 1; // session present (a resumed answer to a clean start is DontCare)
+                    } else if rng.chance(1, 6) && bytes[1] < 0x80 {
+                        // reserved bits of the acknowledge flags
+                        bytes[2] = *rng.pick(&[2u8, 3, 4, 0x10, 0x80, 0x81, 0xFE, 0xFF]);
+                        out.key("mutator/connack-reserved-flags".to_string());
                     }
                 }
                 if rng.chance(1, 2) {
